@@ -278,6 +278,27 @@ def boundary_and_order_cases(chk, rng):
         consistency(chk, name, kw0, g0, "even ground width exactly 0")
         if chk.failures:
             return n
+    # (c) a sharp face corner (r1 exactly 0): the groove is resolved like any other and its contour still meets the roll face at half the usable width
+    for name, kw in CATALOGUE:
+        if 'r1' not in kw or 'pad_angle' in kw:
+            continue
+        kw0 = dict(kw, r1=0)
+        try:
+            g = build(name, kw0)
+        except Exception:       # noqa  (some classes refuse the sharp corner: nothing to compare)
+            continue
+        n += 1
+        cp = np.asarray(g.contour_points)
+        size = max(g.usable_width, g.depth)
+        dist = float(np.min(np.hypot(np.abs(cp[:, 0]) - g.usable_width / 2, cp[:, 1])))
+        onface = float(np.interp(g.usable_width / 2, cp[:, 0], cp[:, 1]))
+        if dist > 1e-9 * size or abs(onface) > 1e-9 * size:
+            chk.fail('face-corner', f"{name}{kw0} (sharp face corner): no contour vertex at the end of the usable width (nearest is {dist:.6g} away); the contour is "
+                     f"{onface:.6g} deep at z = usable_width/2 = {g.usable_width / 2:.6g}", {'groove': name, 'kwargs': kw0})
+            return n
+        consistency(chk, name, kw0, g, "sharp face corner r1 = 0")
+        if chk.failures:
+            return n
     return n
 
 
